@@ -279,6 +279,14 @@ def gen_op(rng, npool, isint, iscomplex, struct):
         # operate on the p-th *parts* of the containers (elements of the
         # component space that are at the same time parts of live containers)
         op['part'] = rng.randrange(4)
+    elif struct != 'leaf' and 'x0' not in form and rng.random() < 0.2:
+        # operate on sub-elements X[[i, j]] / X[a:b] of the containers: they
+        # share their parts with the containers, so in-place arithmetic on
+        # them is in-place arithmetic on the containers
+        if rng.random() < 0.6:
+            op['sub'] = ['list'] + rng.sample(range(4), rng.randint(1, 3))
+        else:
+            op['sub'] = ['slice', rng.choice([0, 0, 1]), rng.choice([1, 2, 3])]
     return op
 
 
@@ -556,6 +564,33 @@ class Run(object):
             pi = op['part'] % len(xi.parts)
             xi, xj, xk = xi.parts[pi], xj.parts[pi], xk.parts[pi]
             S = xi.space
+        elif 'sub' in op and hasattr(xi, 'parts') and len(xi.parts) > 1:
+            npart = len(xi.parts)
+            if op['sub'][0] == 'list':
+                idx = []
+                for q in op['sub'][1:]:
+                    if q % npart not in idx:
+                        idx.append(q % npart)
+            else:
+                idx = slice(op['sub'][1], max(op['sub'][1] + 1, op['sub'][2]))
+            parents = (xi, xj, xk)
+            try:
+                xi, xj, xk = xi[idx], xj[idx], xk[idx]
+            except Exception as e:
+                self.viol('raise', 'subelement/' + type(e).__name__,
+                          'X[{}] raised {}: {}'.format(idx, type(e).__name__,
+                                                       str(e)[:120]))
+            if not hasattr(xi, 'parts') or len(xi.parts) == 0:
+                raise Reject('empty sub-element')
+            for par, sub in zip(parents, (xi, xj, xk)):
+                pk = set(_keys(par))
+                if any(k_ not in pk for k_ in _keys(sub)):
+                    self.viol('subelement-copies', op['sub'][0],
+                              'X[{}] on {} does not share all its parts '
+                              'with X (writing through it would be lost)'
+                              ''.format(idx, self.describe()))
+            S = xi.space
+            self.ctx.fired('subelement-' + op['sub'][0])
         spec = _spec(f, a, b, n)
         if spec is None:
             raise HarnessError('no spec for ' + f)
@@ -744,7 +779,8 @@ class Run(object):
         self.ctx.event(f, op['i'], op['j'], op['k'],
                        elem_digest(res2)[:12])
         if nontrivial:
-            self.ctx.covered(_form_class(f) + ('@part' if 'part' in op else ''),
+            self.ctx.covered(_form_class(f) + ('@part' if 'part' in op else
+                                               '@sub' if 'sub' in op else ''),
                              pattern, self.regime(),
                              pool.cfg['leaf']['dtype'], pool.cfg['struct'],
                              _sclass(a), _sclass(b) if ',b,' in f else '-',
